@@ -988,7 +988,7 @@ impl Node {
                     Err(_) => "err connect".into(),
                 }
             }
-            "raw-send" => {
+            "raw-send" | "raw-refused" => {
                 // raw-send <r> <hex> : write raw bytes, then try to read one response header
                 use tokio::io::{AsyncReadExt, AsyncWriteExt};
                 let id: u32 = f[1].parse().unwrap();
